@@ -109,6 +109,11 @@ def check_bits(ctx, w):
         ok = f is not None and f[4] == exp
         ctx.ob('L-BITS', 'elf/structs.py:ELFStructs._create_sym', '%s.%s table' % key, ok, msg='bit field does not use its enum table',
                expected=tn)
+        # the field is wide enough for every value its own table names (STV_EXPORTED..STV_ELIMINATE need the third bit)
+        mx = max([x for x in exp.values() if isinstance(x, int)] or [0])
+        ctx.ob('L-BITS', 'elf/structs.py:ELFStructs._create_sym', '%s.%s wide enough for its table (max %d)' % (key[0], key[1], mx),
+               f is not None and (1 << f[1]) > mx, got=f[:2] if f else None,
+               msg='the bit field is narrower than the largest value of its enum table: those symbols decode under another name')
         ctx.ob('L-BITS', 'elf/structs.py:ELFStructs._create_sym', '%s.%s pass-through' % key,
                f is not None and type(f[5]).__name__ == 'Ctor' and f[5].kind == 'Pass', msg='bit-field enum lacks the pass-through default')
 
